@@ -313,8 +313,12 @@ fn main() {
     // length 1..=L: any estimate of the discarded length is exercised at every value
     let lmax8: usize = tier.pick(2600, 10000);
     run.bound("S8_discarded_lengths", format!("1..={}", lmax8));
-    run.par("S8 decision shapes at every discarded length", lmax8, |li| {
-        let l = li + 1;
+    // ... and a ladder of far longer dropped parts (sizes at which a digit-count ESTIMATE first goes wrong are set
+    // by the estimate's error, not by any literal in the code)
+    let ladder: Vec<usize> = tier.pick(vec![3000, 5000, 7100, 8000, 10000, 12000, 16500, 20000], vec![12000, 16500, 20000, 25000, 33000, 50000, 70000, 100000]);
+    run.bound("lmax8_ladder", json!(ladder));
+    run.par("S8 decision shapes at every discarded length", lmax8 + ladder.len(), |li| {
+        let l = if li < lmax8 { li + 1 } else { ladder[li - lmax8] };
         let mut t = Tally::default();
         for tail in decision_tails(l) {
             for head in ["7", "86"] {
